@@ -283,6 +283,24 @@ func (w *world) doBatch(op opT) string {
 			out += fmt.Sprintf("[%s gone=%v]", c.name(sr.op.a), gone[sr.op.a])
 		}
 	}
+	// several RESERVEs of one client in the batch: which one the relay handled last is unknown
+	for p := range reserved {
+		r := m.rsv[p]
+		if r == nil {
+			continue
+		}
+		for _, sr := range subs {
+			if sr.skip || sr.op.kind != opReserve || sr.op.a != p || sr.rsv.status != pbv2.Status_OK {
+				continue
+			}
+			if sr.rsv.t0+c.ttl < r.lo {
+				r.lo = sr.rsv.t0 + c.ttl
+			}
+			if sr.rsv.t1+c.ttl > r.hi {
+				r.hi = sr.rsv.t1 + c.ttl
+			}
+		}
+	}
 	w.applyDisc(gone, reserved)
 	if len(gone) > 0 {
 		out += fmt.Sprintf(" disconnected=%v", sortedKeys(gone))
